@@ -278,7 +278,7 @@ gen_threads, ev_threads = _thr.make(T_CALLS, ['api/app.py'], 'api:threads', trip
 
 SUBCHECKS = [
     Sub('spellings', gen_spell, ev_spell_single, chunk=1, floor=100, guard=False),
-    Sub('threads', gen_threads, ev_threads, chunk=1, floor=10, poison=False, fresh=True),
+    Sub('threads', gen_threads, ev_threads, chunk=1, floor=10, poison=False, fresh=True, timeout=3600),
     Sub('vincdir', gen_dir, ev_dir, chunk=1, floor=500, guard=True, envs=3),
     Sub('vincinv', gen_inv, ev_inv, chunk=4, floor=500, guard=True, envs=3),
     Sub('index', gen_index, ev_index, chunk=1, floor=1, parallel=False, guard=True),
